@@ -407,6 +407,13 @@ def stream_index(pid, tier, seed):
     return int(seed) % STREAMS[tier][pid]
 
 
+def selected(spec):
+    """development aid: VERIF_ONLY_ARCH=aarch64l,aarch64b re-sweeps some arch/modes only; the
+    candidates of the others are still drawn (same PRNG stream) but not processed"""
+    only = os.environ.get("VERIF_ONLY_ARCH")
+    return not only or spec.name in only.split(",")
+
+
 def walk_rounds(n):
     """development aid: VERIF_NOWALK=1 runs only the seed-dependent part (key collection over many
     seeds); the seed-dependent candidates do not depend on the walk, so they are the same ones"""
